@@ -1470,8 +1470,9 @@ class FakeSocket:
     @command((Key(set), Key(set)), (Key(set),))
     def pfmerge(self, dest, *sources):
         "Merge N different HyperLogLogs into a single one."
-        # An existing destination is one of the merged inputs
-        self.sunionstore(dest, dest, *sources)
+        # An existing destination is one of the merged inputs and is modified in place,
+        # so it keeps its expiry
+        dest.update(self._calc_setop(lambda a, b: a | b, False, dest, *sources))
         return OK
 
     # Sorted set commands
